@@ -4,6 +4,10 @@ use vmon::report::{Args, Report};
 use vmon::ugen::Pools;
 
 fn main() {
+    if std::env::var_os("VMON_NOOP").is_some() {
+        // used by `./check build miri` to compile the binary under the interpreter
+        return;
+    }
     let args = Args::parse();
     let suite = args.str("suite", "match");
     let out = args.str("out", "-");
